@@ -75,6 +75,11 @@ class Canon:
             fl = a.get('flags', '')
             d = self.h(a['dirfd'])
             op = 'openexcl' if 'O_CREAT' in fl else 'openrd'
+            # the model's openRd / openExcl ARE the close-on-exec, (exclusive) forms: any other flag set is not the modelled call
+            want = {'O_WRONLY', 'O_CREAT', 'O_EXCL', 'O_CLOEXEC'} if op == 'openexcl' else {'O_RDONLY', 'O_CLOEXEC'}
+            if set(fl.split('|')) != want:
+                self.notes.append('openat with flags %s' % fl)
+                return 'openat-flags-%s %d %s = ok 0' % (fl.replace('|', '+'), d, hx(U('path')))
             r = self.res(t) if err else 'ok %d' % self.new(int(t['result']))
             return '%s %d %s = %s' % (op, d, hx(U('path')), r)
         if n == 'open':
@@ -125,8 +130,9 @@ class Canon:
         if n == 'waitpid':
             st = a.get('status', '0')
             return 'waitpid = %s' % (self.res(t) if err or st == '-' else 'ok %s' % st)
+        # a call the model does not know: kept in the trace, so that the conformance stops there (the driver cannot parse it)
         self.notes.append('unmodelled call %s' % n)
-        return None
+        return 'unmodelled-%s = ok 0' % n
 
 
 def canon_trace(trace):
